@@ -84,14 +84,17 @@ class LightPlatformDirectFade(LightPlatformInterface, metaclass=abc.ABCMeta):
         max_fade_ms = self.get_max_fade_ms()
         current_time = self.loop.time()
         if target_time > 0:
-            fade_ms = (target_time - current_time) / 1000.0
+            fade_ms = (target_time - current_time) * 1000.0
         else:
             fade_ms = -1
 
+        # a new command always replaces a running fade
+        if self.task:
+            self.task.cancel()
+            self.task = None
+
         if fade_ms > max_fade_ms:
             # we have to continue the fade later
-            if self.task:
-                self.task.cancel()
             self.task = self.loop.create_task(self._fade(start_brightness, start_time, target_brightness, target_time))
             self.task.add_done_callback(Util.raise_exceptions)
         else:
